@@ -220,34 +220,34 @@ example : Cidr.wf ⟨[10, 0, 0, 0], [255, 0, 0, 0]⟩ = true ∧
       [10, 9, 8, 7] = true ∧
     contains ⟨[10, 0, 0, 0], [255, 0, 0, 0]⟩ [11, 0, 0, 0] = false := by decide
 
-/-- Parts 2 and 4 with membership read on bits: the statement exactly as the judge of the
-correspondence run evaluates it on the implementation. -/
-theorem C16_statement_on_bits (c : Config) (r : Req)
-    (hwt : c.trusted.all Cidr.wf = true) (hwa : c.allow.all Cidr.wf = true)
+/-- Parts 2 and 4 for any reading `fT` / `fA` of "is a configured trusted proxy" / "is on the allow-list"
+that agrees with the code's lists on addresses: the statement in that reading. -/
+theorem statement_pointwise (c : Config) (fT fA : List Nat → Bool) (r : Req)
+    (hT : ∀ ip, bytesOk ip = true → (ip.length = 4 ∨ ip.length = 16) → allowed c.trusted ip = fT ip)
+    (hA : ∀ ip, bytesOk ip = true → (ip.length = 4 ∨ ip.length = 16) → allowed c.allow ip = fA ip)
     (hw : r.wf = true) (hi : r.ipwf = true) :
-    realIP (some c.trusted) r = specRealIP (specAllowed c.trusted) r ∧
-    allowStats c r = specAnswer (specAllowed c.trusted) (specAllowed c.allow) r := by
+    realIP (some c.trusted) r = specRealIP fT r ∧ allowStats c r = specAnswer fT fA r := by
   have hi' : (r.peer.ipwf = true ∧ r.xreal.all Tok.ipwf = true) ∧ r.hops.all Tok.ipwf = true := by
     simpa [Req.ipwf] using hi
   obtain ⟨⟨hip, hix⟩, hih⟩ := hi'
-  have hpeer : r.peer.valid = true → allowed c.trusted r.peer.bytes = specAllowed c.trusted r.peer.bytes := by
+  have hpeer : r.peer.valid = true → allowed c.trusted r.peer.bytes = fT r.peer.bytes := by
     intro hv
     obtain ⟨h1, h2⟩ := Tok.bytes_ok hv hip
-    exact allowed_eq_specAllowed _ _ hwt h1 h2
-  have hhops : ∀ t ∈ r.hops, t.valid = true → allowed c.trusted t.bytes = specAllowed c.trusted t.bytes := by
+    exact hT _ h1 h2
+  have hhops : ∀ t ∈ r.hops, t.valid = true → allowed c.trusted t.bytes = fT t.bytes := by
     intro t ht hv
     obtain ⟨h1, h2⟩ := Tok.bytes_ok hv (List.all_eq_true.mp hih t ht)
-    exact allowed_eq_specAllowed _ _ hwt h1 h2
-  have h1 : realIP (some c.trusted) r = specRealIP (specAllowed c.trusted) r := by
+    exact hT _ h1 h2
+  have h1 : realIP (some c.trusted) r = specRealIP fT r := by
     rw [C16_trusted_result_shape c.trusted r hw]
     exact specRealIP_congr _ _ r hpeer hhops
   refine ⟨h1, ?_⟩
   unfold allowStats specAnswer
   rw [h1]
   -- the chosen token is the peer, an X-Real-IP value or a hop: all have well-formed addresses
-  by_cases hv : (specRealIP (specAllowed c.trusted) r).valid = true
-  · have hmem : (specRealIP (specAllowed c.trusted) r).ipwf = true := by
-      generalize hf : specAllowed c.trusted = f
+  by_cases hv : (specRealIP fT r).valid = true
+  · have hmem : (specRealIP fT r).ipwf = true := by
+      generalize fT = f
       unfold specRealIP specRealIP.fwd
       have hfwd : (match r.hops.reverse.find? (fun (h : Tok) => h.valid && !f h.bytes) with
           | some h => h
@@ -271,12 +271,21 @@ theorem C16_statement_on_bits (c : Config) (r : Req)
           · exact List.all_eq_true.mp hix t (List.mem_of_mem_head? hx)
           · exact hfwd
     obtain ⟨hb1, hb2⟩ := Tok.bytes_ok hv hmem
-    show ((specRealIP (specAllowed c.trusted) r).valid && allowed c.allow (specRealIP (specAllowed c.trusted) r).bytes) =
-      ((specRealIP (specAllowed c.trusted) r).valid && specAllowed c.allow (specRealIP (specAllowed c.trusted) r).bytes)
-    rw [allowed_eq_specAllowed _ _ hwa hb1 hb2]
-  · show ((specRealIP (specAllowed c.trusted) r).valid && allowed c.allow (specRealIP (specAllowed c.trusted) r).bytes) =
-      ((specRealIP (specAllowed c.trusted) r).valid && specAllowed c.allow (specRealIP (specAllowed c.trusted) r).bytes)
+    show ((specRealIP fT r).valid && allowed c.allow (specRealIP fT r).bytes) =
+      ((specRealIP fT r).valid && fA (specRealIP fT r).bytes)
+    rw [hA _ hb1 hb2]
+  · show ((specRealIP fT r).valid && allowed c.allow (specRealIP fT r).bytes) =
+      ((specRealIP fT r).valid && fA (specRealIP fT r).bytes)
     simp [hv]
+
+/-- Parts 2 and 4 with membership read on bits. -/
+theorem C16_statement_on_bits (c : Config) (r : Req)
+    (hwt : c.trusted.all Cidr.wf = true) (hwa : c.allow.all Cidr.wf = true)
+    (hw : r.wf = true) (hi : r.ipwf = true) :
+    realIP (some c.trusted) r = specRealIP (specAllowed c.trusted) r ∧
+    allowStats c r = specAnswer (specAllowed c.trusted) (specAllowed c.allow) r :=
+  statement_pointwise c _ _ r (fun _ hb hl => allowed_eq_specAllowed _ _ hwt hb hl)
+    (fun _ hb hl => allowed_eq_specAllowed _ _ hwa hb hl) hw hi
 
 /-! ## 7. Defaults and configuration -/
 
@@ -345,6 +354,140 @@ theorem C16_parse_refuses_iff (es : List Entry) : parseAllowed es = none ↔ Ent
     cases e with
     | skip => simp [parseAllowed, ih]
     | bad => simp [parseAllowed]
+    | host h => simp [parseAllowed, ih]
     | net c => simp [parseAllowed, ih]
+
+/-! ## 8. "Configured" means what the operator wrote -/
+
+/-- An entry without prefix length stands for its own address and nothing else: the network the code
+builds for it contains an address iff it is that address (an IPv4 address in either of its spellings; never
+an address of the other family, never a neighbour). -/
+theorem C16_host_entry_exact (h ip : List Nat) (bh : bytesOk h = true) (hl : h.length = 4 ∨ h.length = 16)
+    (bi : bytesOk ip = true) (il : ip.length = 4 ∨ ip.length = 16) :
+    (allowed [hostNet h] ip = true ↔ unmap ip = unmap h) ∧ (hostNet h).wf = true := by
+  constructor
+  · have hal := unmap_length il
+    have h1 : ((unmap ip).length == 4 || (unmap ip).length == 16) = true := by
+      rcases hal with h | h <;> simp [h]
+    simp [allowed, contains_hostNet h ip bh hl bi il, specHostMatches, h1]
+  · rw [hostNet_eq]
+    have hc : ∀ n, canonicalMask (List.replicate n 255) = true := by
+      intro n
+      have hm : ∀ n, List.replicate n 255 = cidrMask (8 * n) n := by
+        intro n
+        induction n with
+        | zero => rfl
+        | succ k ih =>
+          rw [cidrMask_succ, if_pos (by omega), List.replicate_succ, ih]
+          have : 8 * (k + 1) - 8 = 8 * k := by omega
+          rw [this]
+      unfold canonicalMask
+      rw [List.length_replicate, beq_iff_eq]
+      conv => rhs; rw [hm n, leadingOnes_cidrMask n (8 * n) (Nat.le_refl _)]
+      exact hm n
+    have hbm : ∀ n, bytesOk (List.replicate n 255) = true := by
+      intro n; simp [bytesOk, List.all_replicate]
+    simp only [Cidr.wf, bh, hbm, hc, List.length_replicate, Bool.true_and, Bool.and_eq_true, Bool.or_eq_true,
+      beq_iff_eq]
+    exact ⟨hl, hl⟩
+
+/-- `2001:db8::1` is not `2001:db8::/32`, `::1` is not `::/32`, `10.0.0.1` matches `::ffff:10.0.0.1` and
+neither `10.0.0.2` nor the IPv6 address `a00:1::`. -/
+example :
+    allowed [hostNet [0x20,0x01,0x0d,0xb8,0,0,0,0,0,0,0,0,0,0,0,1]] [0x20,0x01,0x0d,0xb8,0,0,0,0,0,0,0,0,0,0,0,2] = false ∧
+    allowed [hostNet [0,0,0,0,0,0,0,0,0,0,0,0,0,0,0,1]] [0,0,0,0,0,0,0,1,0,0,0,0,0,0,0,1] = false ∧
+    allowed [hostNet [0,0,0,0,0,0,0,0,0,0,255,255,10,0,0,1]] [10,0,0,1] = true ∧
+    allowed [hostNet [0,0,0,0,0,0,0,0,0,0,255,255,10,0,0,1]] [0,0,0,0,0,0,0,0,0,0,255,255,10,0,0,2] = false ∧
+    allowed [hostNet [0,0,0,0,0,0,0,0,0,0,255,255,10,0,0,1]] [10,0,0,1,0,0,0,0,0,0,0,0,0,0,0,0] = false := by decide
+
+/-- The lists a server holds after start are what the operator wrote (`Judge.fresh`: every entry without
+prefix length one address, every `a/n` the prefix, nothing written = the defaults of the statement): the same
+addresses are trusted / may read the statistics. -/
+theorem C16_config_as_written (t a : List Entry) (c : Config)
+    (hwt : t.all Entry.wf = true) (hwa : a.all Entry.wf = true) (hc : Config.fresh t a = some c)
+    (ip : List Nat) (hb : bytesOk ip = true) (hl : ip.length = 4 ∨ ip.length = 16) :
+    allowed c.trusted ip = specListed (Judge.fresh t a).trusted ip ∧
+    allowed c.allow ip = specListed (Judge.fresh t a).allow ip := by
+  unfold Config.fresh at hc
+  cases ht : parseAllowed t with
+  | none => simp [ht] at hc
+  | some tl =>
+    cases ha : parseAllowed a with
+    | none => simp [ht, ha] at hc
+    | some al =>
+      simp only [ht, ha, Option.some.injEq] at hc
+      subst hc
+      have hbt : t.any Entry.isBad = false := by rw [← parse_isNone, ht]; rfl
+      have hba : a.any Entry.isBad = false := by rw [← parse_isNone, ha]; rfl
+      simp only [Judge.fresh, hbt, hba, Bool.or_self, Bool.false_eq_true, if_false]
+      exact ⟨effective_as_written t tl _ _ hwt ht default_trusted_as_written ip hb hl,
+        effective_as_written a al _ _ hwa ha default_allow_as_written ip hb hl⟩
+
+/-- A refused start leaves the statement's defaults (the harness's fallback server). -/
+theorem C16_config_refused_as_written (t a : List Entry) (hc : Config.fresh t a = none)
+    (ip : List Nat) (hb : bytesOk ip = true) (hl : ip.length = 4 ∨ ip.length = 16) :
+    allowed Config.default.trusted ip = specListed (Judge.fresh t a).trusted ip ∧
+    allowed Config.default.allow ip = specListed (Judge.fresh t a).allow ip := by
+  have hbad : (t.any Entry.isBad || a.any Entry.isBad) = true := by
+    rw [← parse_isNone, ← parse_isNone]
+    unfold Config.fresh at hc
+    cases ht : parseAllowed t with
+    | none => rfl
+    | some tl =>
+      cases ha : parseAllowed a with
+      | none => simp
+      | some al => simp [ht, ha] at hc
+  simp only [Judge.fresh, hbad, if_true]
+  exact ⟨default_trusted_as_written ip hb hl, default_allow_as_written ip hb hl⟩
+
+/-- `Reload` keeps the lists in step with what was written. -/
+theorem C16_reload_as_written (c : Config) (j : Judge) (t a : List Entry)
+    (hwt : t.all Entry.wf = true) (hwa : a.all Entry.wf = true)
+    (hcj : ∀ ip, bytesOk ip = true → (ip.length = 4 ∨ ip.length = 16) →
+      allowed c.trusted ip = specListed j.trusted ip ∧ allowed c.allow ip = specListed j.allow ip)
+    (ip : List Nat) (hb : bytesOk ip = true) (hl : ip.length = 4 ∨ ip.length = 16) :
+    allowed (c.reload t a).trusted ip = specListed (j.reload t a).trusted ip ∧
+    allowed (c.reload t a).allow ip = specListed (j.reload t a).allow ip := by
+  constructor
+  · cases ht : parseAllowed t with
+    | none =>
+      have hbt : t.any Entry.isBad = true := by rw [← parse_isNone, ht]; rfl
+      simp only [Config.reload, Judge.reload, ht, hbt, if_true]
+      exact (hcj ip hb hl).1
+    | some tl =>
+      have hbt : t.any Entry.isBad = false := by rw [← parse_isNone, ht]; rfl
+      simp only [Config.reload, Judge.reload, ht, hbt, Bool.false_eq_true, if_false]
+      exact effective_as_written t tl _ _ hwt ht default_trusted_as_written ip hb hl
+  · cases ha : parseAllowed a with
+    | none =>
+      have hba : a.any Entry.isBad = true := by rw [← parse_isNone, ha]; rfl
+      simp only [Config.reload, Judge.reload, ha, hba, if_true]
+      exact (hcj ip hb hl).2
+    | some al =>
+      have hba : a.any Entry.isBad = false := by rw [← parse_isNone, ha]; rfl
+      simp only [Config.reload, Judge.reload, ha, hba, Bool.false_eq_true, if_false]
+      exact effective_as_written a al _ _ hwa ha default_allow_as_written ip hb hl
+
+/-- Parts 2 and 4 of the statement with "configured" read off the written lists — exactly what the judge
+of the correspondence run evaluates on the implementation's answers. -/
+theorem C16_statement_as_written (c : Config) (j : Judge) (r : Req)
+    (hcj : ∀ ip, bytesOk ip = true → (ip.length = 4 ∨ ip.length = 16) →
+      allowed c.trusted ip = specListed j.trusted ip ∧ allowed c.allow ip = specListed j.allow ip)
+    (hw : r.wf = true) (hi : r.ipwf = true) :
+    realIP (some c.trusted) r = specRealIP (specListed j.trusted) r ∧
+    allowStats c r = specAnswer (specListed j.trusted) (specListed j.allow) r :=
+  statement_pointwise c _ _ r (fun ip hb hl => (hcj ip hb hl).1) (fun ip hb hl => (hcj ip hb hl).2) hw hi
+
+/-- Non-vacuity: `trustedproxies = 2001:db8::1`, a neighbour `2001:db8::2` connects directly and claims to
+be `::1` — it stays `2001:db8::2` and is refused. -/
+example :
+    let t := [Entry.host [0x20,0x01,0x0d,0xb8,0,0,0,0,0,0,0,0,0,0,0,1]]
+    let a := [Entry.host [0,0,0,0,0,0,0,0,0,0,0,0,0,0,0,1]]
+    let r : Req := { peer := ⟨"2001:db8::2", some [0x20,0x01,0x0d,0xb8,0,0,0,0,0,0,0,0,0,0,0,2]⟩,
+                     xreal := [⟨"::1", some [0,0,0,0,0,0,0,0,0,0,0,0,0,0,0,1]⟩], hops := [] }
+    (Config.fresh t a).map (fun c => ((realIP (some c.trusted) r).text, endpointStatus .main "/api/v1/stats" c r)) =
+      some ("2001:db8::2", 403) ∧
+    (Judge.fresh t a).ip false r "::1" = "violated:headers-change-address-of-untrusted-peer" ∧
+    (Judge.fresh t a).get true r 200 = "violated:gated-endpoint-answers-address-not-on-allow-list" := by decide
 
 end SigModel.RealIP
